@@ -32,6 +32,54 @@
 #include "process.h"            /* struct process */
 #include "signals.h"            /* halt() */
 
+#ifdef KJN_LBZIP2_VERIF
+/* Verification hook H1: seeded schedule perturbation.  If the environment
+   variable LBZIP2_VERIF_SCHED=<seed> is set, threads yield or sleep for a
+   few microseconds at scheduler lock/unlock and I/O hand-over points. */
+#include <sched.h>              /* sched_yield() */
+#include <time.h>               /* nanosleep() */
+#include <stdio.h>              /* FILE */
+static int verif_sched_state = -1;  /* -1 unknown, 0 off, 1 on */
+static unsigned long verif_sched_seed;
+static __thread unsigned long verif_rng;
+static void
+verif_perturb(void)
+{
+  unsigned long x;
+
+  if (verif_sched_state < 0) {
+    const char *e = getenv("LBZIP2_VERIF_SCHED");
+    verif_sched_seed = e ? strtoul(e, NULL, 10) : 0;
+    verif_sched_state = e != NULL;
+  }
+  if (!verif_sched_state)
+    return;
+  if (verif_rng == 0)
+    verif_rng = (verif_sched_seed * 2654435761ul) ^
+      (unsigned long)(size_t)&verif_rng ^ 88172645463325252ul;
+  x = verif_rng;
+  x ^= x << 13; x ^= x >> 7; x ^= x << 17;
+  verif_rng = x;
+  switch (x % 8) {
+  case 0: case 1:
+    sched_yield();
+    break;
+  case 2: {
+    struct timespec ts;
+    ts.tv_sec = 0;
+    ts.tv_nsec = (long)((x >> 8) % 200) * 1000;
+    nanosleep(&ts, NULL);
+    break;
+  }
+  default:
+    break;
+  }
+}
+#define VERIF_PERTURB() verif_perturb()
+#else
+#define VERIF_PERTURB() ((void)0)
+#endif
+
 
 /*
   JOB SCHEDULING
@@ -113,6 +161,7 @@ xread(void *vbuf, size_t *vacant)
   do {
     ssize_t rd;
 
+    VERIF_PERTURB();
     rd = read(ispec.fd, buffer, *vacant > (size_t)SSIZE_MAX ?
               (size_t)SSIZE_MAX : *vacant);
 
@@ -143,6 +192,7 @@ xwrite(const void *vbuf, size_t size)
     do {
       ssize_t wr;
 
+      VERIF_PERTURB();
       wr = write(ospec.fd, buffer, size > (size_t)SSIZE_MAX ?
                  (size_t)SSIZE_MAX : size);
 
@@ -313,6 +363,7 @@ void
 source_release_buffer(void *buffer)
 {
   free(buffer);
+  VERIF_PERTURB();
 
   xlock(&source_mutex);
   if (in_slots++ == 0)
@@ -341,6 +392,7 @@ sink_write_buffer(void *buffer, size_t size, size_t weight)
   block.size = size;
   block.weight = weight;
 
+  VERIF_PERTURB();
   xlock(&sink_mutex);
   push(output_q, block);
   xsignal(&sink_cond);
@@ -468,6 +520,7 @@ static struct thread_entry worker_thread_entry = { worker_thread_proc };
 void
 sched_lock(void)
 {
+  VERIF_PERTURB();
   xlock(&sched_mutex);
 }
 
@@ -482,6 +535,7 @@ sched_unlock(void)
     xsignal(&sched_cond);
 
   xunlock(&sched_mutex);
+  VERIF_PERTURB();
 }
 
 
